@@ -607,6 +607,51 @@ def r05_9(ctx, verified: List[FunctionInfo]) -> None:
     ctx.ok("R05.9", "gates inside try blocks", f"{n} gate call(s) inside a try block, none with a handler that can complete normally")
 
 
+def r05_16(ctx) -> None:
+    """R05.16  "with an explicit list ... exactly the listed names are usable": the four JWE operations take BOTH `algorithms=` and `registry=`; a non-empty
+    list is the narrower statement of what the caller allows and it decides - the registry that is used is built from it whether or not a registry was
+    passed as well.  In each of the four functions the test of `algorithms` is reached without any test about `registry` having been decided first,
+    and on its true arm the registry is (re)built from the list before anything uses it.  (JWS: `construct_registry` has no such test - a passed
+    registry is the caller's explicit statement there, decided by R05.10.)"""
+    from .common import succ_by_label
+    eng = ctx.eng
+    P = eng.prog
+    n = 0
+    for name in ("encrypt_compact", "decrypt_compact", "encrypt_json", "decrypt_json"):
+        fn = P.func(f"jwe:{name}")
+        if "algorithms" not in fn.params or "registry" not in fn.params:
+            raise AnalysisError(f"jwe:{name} lost its algorithms / registry parameters")
+        cfg = cfg_of(fn)
+        tests = [t for t in cfg.nodes if t.kind == "test" and t.ast is not None and norm(t.ast) in ("algorithms", "not algorithms")]
+        n += 1
+        ok = bool(tests)
+        why = "no test of `algorithms`"
+        if ok:
+            reg_tests = [t for t in cfg.nodes if t.kind == "test" and t.ast is not None and any(isinstance(x, ast.Name) and x.id == "registry" for x in ast.walk(t.ast))]
+            # (1) some test of `algorithms` is reached from the entry without passing a test that mentions `registry`
+            free = cfg.reachable(cfg.entry, edge_filter=lambda a, b, lab, _r=reg_tests: a not in _r)
+            tfree = [t for t in tests if t in free]
+            ok = bool(tfree)
+            why = "the `algorithms` list is only looked at after a test about `registry` was decided: a passed registry overrides the explicit list"
+            if ok:
+                # (2) on the arm where the list is non-empty the registry is rebuilt from it on every path
+                for t in tfree:
+                    lab = "true" if norm(t.ast) == "algorithms" else "false"
+                    builds = []
+                    for s_ in eng.cg.calls_in(fn):
+                        if s_.kind == "ctor" and isinstance(s_.node, ast.Call) and any(getattr(c_, "cls", None) is not None and c_.cls.name == "JWERegistry" for c_ in s_.callees):
+                            a_ = eng.cg.arg_for_param(s_, s_.callees[0], "algorithms")
+                            if a_ is not None and norm(a_) == "algorithms" and cfg.node_of(s_.node) is not None:
+                                builds.append(cfg.node_of(s_.node))
+                    for s0 in succ_by_label(cfg, t, lab):
+                        if not builds or cfg.exit in cfg.reachable(s0, builds) and s0 not in builds:
+                            ok = False
+                            why = "with a non-empty `algorithms` list a path does not build the registry from it"
+        ctx.check(ok, "R05.16", fn, fn.node, f"{fn.short} :: explicit list decides", f"{fn.short}: {why}", "if algorithms: registry = JWERegistry(algorithms=algorithms)  elif registry is None: default",
+                  construct=f"allow-list precedence in {fn.short}")
+    ctx.count("R05.16", n, 4, "JWE operations taking both algorithms= and registry=")
+
+
 def r05_10(ctx) -> None:
     """a registry object is built inside an operation only from the call's own `algorithms` argument and only when that argument is
     given or the caller passed no registry: an explicit registry is never replaced by one that lost its allow-list"""
@@ -768,6 +813,7 @@ def run(ctx) -> None:
     ctx.guard(r05_13)
     ctx.guard(r05_12)
     ctx.guard(r05_10)
+    ctx.guard(r05_16)
     ctx.guard(r05_1)
     verified = ctx.guard(r05_3) or []
     ctx.extra["verified_gates"] = [f.short for f in verified]
